@@ -15,7 +15,7 @@ NS = [8, 15, 16, 23, 64, 100]
 
 def gen_cases(rnd, tier):
     import dedisp_util as D
-    k = 6 if tier == "thorough" else 1
+    k = 5 if tier == "thorough" else 1
     full = tier == "thorough"
     cases = []
     for i in range(200 * k):
